@@ -49,13 +49,13 @@ const ENC_POLICIES: &[&str] = &[
     "SEC::LOW && DPT::MKG", "DPT::FIN || DPT::HR", "(SEC::TOP && DPT::FIN) || (SEC::LOW && DPT::RD)", "SEC::TOP && (DPT::MKG || DPT::DEV)",
 ];
 
-// @obl props=C01,C02,C11 tier=quick fn=api::Covercrypt::decaps shape="test structure (SEC hierarchy with a hybridized attribute, DPT anarchy), 12 user policies x 13 encryption policies, real cryptography"
+// @obl props=C01,C02,C09,C11 tier=quick fn=api::Covercrypt::decaps shape="test structure (SEC hierarchy with a hybridized attribute, DPT anarchy), 12 user policies x 13 encryption policies, real cryptography"
 #[test]
 fn e2e__decaps_iff_cover_relation() {
     let cc = Covercrypt::default();
     let (mut msk, mpk) = cc_keygen(&cc, false).unwrap();
     let mut n = 0u64;
-    let encs: Vec<_> = ENC_POLICIES.iter().map(|e| (ap(e), cc.encaps(&mpk, &ap(e)).unwrap())).collect();
+    let encs: Vec<_> = ENC_POLICIES.iter().map(|e| (ap(e), cc.encaps(&mpk, &ap(e)).unwrap_or_else(|err| panic!("C09: encapsulating for '{e}' (every targeted right is published) must succeed: {err}")))).collect();
     for u in USER_POLICIES {
         let usk = cc.generate_user_secret_key(&mut msk, &ap(u)).unwrap();
         for (e, (ss, enc)) in &encs {
